@@ -39,7 +39,7 @@ fuzz_target!(|data: &[u8]| {
     let res = match sel {
         0 => {
             use c16::AppState as S;
-            let states = [S::Idle, S::BusySends, S::BusySendsRot(1), S::BusySendsRot(2), S::BusySendsRot(3), S::BusyReceipt, S::BusyHandlers, S::BusyNoBlock, S::NoHandshake];
+            let states = [S::Idle, S::BusySends, S::BusySendsRot(1), S::BusySendsRot(2), S::BusySendsRot(3), S::BusyReceipt, S::BusyHandlers, S::BusyNoBlock, S::NoHandshake, S::GatedAll, S::BusyAbandoned];
             let c = c16::Case { role, state: states[usize::from(data[2]) % states.len()], seq: body.iter().take(12).map(|b| b % 40).collect() };
             c16::check_case(&c).map_err(|f| ("C16", f.with_case(serde_json::json!({"case": c}))))
         }
